@@ -20,7 +20,7 @@ from ..refsem import RefSem, Ambiguous, state_key
 from .statehist import KNOBS
 
 import unified_planning as up
-from unified_planning.model import UPState, InstantaneousAction
+from unified_planning.model import UPState, InstantaneousAction, Fluent
 from unified_planning.model.contingent import ContingentProblem, SensingAction
 from unified_planning.model.contingent import execution_environment as ee_mod
 from unified_planning.plans import ActionInstance
@@ -229,6 +229,12 @@ class EnvSim(Engine):
                         init.append([["f", gf[0]] + [["o", o] for o in gf[1:]], rw.choice(vals)])
         world = {"types": types, "objects": objs, "fluents": fluents, "hidden": hidden, "constraints": constraints,
                  "type_defaults": type_defaults, "init": init}
+        if rw.random() < 0.3:
+            red = []
+            for fd in rw.sample(fluents, min(len(fluents), rw.randint(1, 2))):
+                vals = values_of(fd["type"], objs, tmap)
+                red.append([fd["name"], rw.choice(vals) if vals and rw.random() < 0.6 else None])
+            world["redeclare"] = red
         # actions
         actions = []
         gw = {"types": types, "objects": objs, "fluents": fluents, "ifuns": []}
@@ -355,6 +361,22 @@ class EnvSim(Engine):
                 p.add_fluent(f)
         for o in W.objects.values():
             p.add_object(o)
+        # refused re-declarations (a fault of kind `reject` while the problem is being built): a structurally equal
+        # fluent offered again with another default must change nothing
+        for name, dv in world.get("redeclare", []):
+            if name not in W.fluents:
+                continue
+            f = W.fluents[name]
+            twin = Fluent(f.name, f.type, list(f.signature), W.env)
+            try:
+                with warnings.catch_warnings():
+                    warnings.simplefilter("ignore")
+                    if dv is None:
+                        p.add_fluent(twin)
+                    else:
+                        p.add_fluent(twin, default_initial_value=W.expr(dv))
+            except Exception:
+                pass
         for fe, v in world["init"]:
             p.set_initial_value(W.expr(fe), W.expr(v))
         for c in world["constraints"]:
